@@ -45,7 +45,8 @@ RULE = (
     "namespaces.  Enumerated families (one representative per renaming of names / "
     "namespaces, histories end in a load, directly repeated modify/delete/fail dropped): "
     "quick = every history of length <= 3 with sync/async chosen per step + every history "
-    "of length 4 whose loads are all sync or all async (file-system families: all sync); "
+    "of length 4 whose loads are all sync or all async (file-system families: all sync; "
+    "capacity 1 and 2 only); "
     "thorough = every history of length <= 4 with sync/async per step + length 5 all-sync "
     "for the dict-based families; plus the "
     "'lrudeep' family (sync loads and modifies only, length <= 6 quick / 7 thorough) that is "
@@ -874,12 +875,15 @@ def _short_now(now: tuple[Any, ...]) -> str:
 # ---------------------------------------------------------------------------
 
 
-def exh_plan(tier: str, family: str) -> list[tuple[int, dict[str, Any]]]:
+def exh_plan(tier: str, family: str, cap: int) -> list[tuple[int, dict[str, Any]]]:
     """[(length, canonical_histories kwargs)] making up the enumerated family."""
     fs = family in FS_FAMILIES
     plan: list[tuple[int, dict[str, Any]]] = [(1, {}), (2, {}), (3, {})]
     if tier == "quick":
-        plan.append((4, {"per_op_mode": False, "uniform_modes": (0,) if fs else (0, 1)}))
+        # with capacity 3 a 4-step history can evict only at its last step, which no
+        # later step can observe; quick leaves those to the thorough tier
+        if cap < 3:
+            plan.append((4, {"per_op_mode": False, "uniform_modes": (0,) if fs else (0, 1)}))
     else:
         plan.append((4, {}))
         if not fs:
@@ -887,13 +891,13 @@ def exh_plan(tier: str, family: str) -> list[tuple[int, dict[str, Any]]]:
     return plan
 
 
-def exh_expected(tier: str, family: str) -> int:
-    return sum(ref.count_canonical(ln, **kw) for ln, kw in exh_plan(tier, family))
+def exh_expected(tier: str, family: str, cap: int) -> int:
+    return sum(ref.count_canonical(ln, **kw) for ln, kw in exh_plan(tier, family, cap))
 
 
-def exh_parts(tier: str, family: str) -> int:
+def exh_parts(tier: str, family: str, cap: int) -> int:  # noqa: ARG001
     if tier == "quick":
-        return 2
+        return 2 if cap < 3 else 1
     return 24
 
 
@@ -912,7 +916,7 @@ def shards(tier: str, seed: int) -> list[dict[str, Any]]:  # noqa: ARG001
     specs: list[dict[str, Any]] = []
     # slowest first so the pool stays busy
     for cfg in sorted(configs(), key=lambda c: c["family"] not in FS_FAMILIES):
-        n = exh_parts(tier, cfg["family"])
+        n = exh_parts(tier, cfg["family"], cfg["cap"])
         for i in range(n):
             specs.append({"kind": "exh", "cfg": cfg, "i": i, "n": n})
     nr = 12 if tier == "quick" else 48
@@ -955,7 +959,7 @@ def floors(tier: str) -> dict[str, int]:
 
 
 def exhaustive(tier: str, merged: dict[str, Any]) -> bool:
-    want = sum(exh_expected(tier, c["family"]) for c in configs())
+    want = sum(exh_expected(tier, c["family"], c["cap"]) for c in configs())
     got = merged["counters"].get("exh_histories_done", 0)
     return got == want and not merged.get("truncated") and not merged.get("failed")
 
@@ -1011,7 +1015,7 @@ def _exh(h: Harness, spec: dict[str, Any], ctx: Ctx) -> None:
     idx = 0
     i, n = spec["i"], spec["n"]
     sample = None
-    for ln, kw in exh_plan(tier, cfg["family"]):
+    for ln, kw in exh_plan(tier, cfg["family"], cfg["cap"]):
         for ops in ref.canonical_histories(ln, **kw):
             idx += 1
             if idx % n != i:
